@@ -14,6 +14,7 @@ import DicomModel.Model.Util
 import DicomModel.Model.Bytes
 import DicomModel.Model.VR
 import DicomModel.Model.JsonFloat
+import DicomModel.Gen.JsonVrTables
 namespace Dicom.Json
 open Dicom.Flt
 
@@ -295,17 +296,8 @@ def b64dec : Bytes → Option Bytes
 
 /-! ## serialiser -/
 
-/-- the arm of the `match vr` in `Serialize for DicomJson<&InMemElement>` -/
-inductive SerClass where
-  | strings | person | numbers | binary | sq
-deriving DecidableEq, Repr
-
-def serClass : VR → SerClass
-  | .AE | .AS | .AT | .CS | .DA | .DT | .LO | .LT | .SH | .UC | .UI | .UR | .TM | .ST | .UT => .strings
-  | .PN => .person
-  | .FD | .IS | .FL | .DS | .SL | .SS | .SV | .UL | .US | .UV => .numbers
-  | .OB | .OD | .OF | .OL | .OV | .OW | .UN => .binary
-  | .SQ => .sq
+/- `SerClass`, `serClass`, `DeClass`, `deClass`: generated from the two `match vr` of the source
+(`Gen/JsonVrTables.lean`, translators/json_vr_tables.py). -/
 
 def sNaN : Bytes := [78, 97, 78]
 def sInf : Bytes := [105, 110, 102]
@@ -633,28 +625,6 @@ def personItem : J → Outcome Bytes
 def atItem : J → Outcome Nat
   | .str s => parseTag s
   | _ => .err
-
-/-- the arm of `match vr` in `DataElementVisitor::visit_map` -/
-inductive DeClass where
-  | sq | text | i16 | u16 | i32 | u8 | f32 | f64 | i64 | u32 | u64 | numstr | pn | at | un
-deriving DecidableEq, Repr
-
-def deClass : VR → DeClass
-  | .SQ => .sq
-  | .AE | .AS | .CS | .DA | .DT | .LO | .LT | .SH | .ST | .UT | .UR | .TM | .UC | .UI => .text
-  | .SS => .i16
-  | .US | .OW => .u16
-  | .SL => .i32
-  | .OB => .u8
-  | .FL | .OF => .f32
-  | .FD | .OD => .f64
-  | .SV => .i64
-  | .UL | .OL => .u32
-  | .UV | .OV => .u64
-  | .DS | .IS => .numstr
-  | .PN => .pn
-  | .AT => .at
-  | .UN => .un
 
 /-- the primitive `"Value"` conversions (everything but `SQ`) -/
 def convertPrim (vr : VR) (v : J) : Outcome Prim :=
